@@ -304,6 +304,28 @@ def find_for_loops(fn):
     return out
 
 
+def find_plain_loops(fn):
+    """every `loop {` / `while COND {` in the fn body: dicts with token indices"""
+    ts = fn.toks
+    out = []
+    i = fn.body_open + 1
+    while i < fn.body_close:
+        t = ts[i]
+        if t.kind == "ident" and t.text in ("loop", "while") and ts[i - 1].text != ".":
+            j = i + 1
+            depth = 0
+            while not (ts[j].text == "{" and depth == 0):
+                if ts[j].text in ("(", "["):
+                    depth += 1
+                elif ts[j].text in (")", "]"):
+                    depth -= 1
+                j += 1
+            label = ts[i - 2] if ts[i - 1].text == ":" and ts[i - 2].kind == "life" else None
+            out.append({"kw": i, "open": j, "close": rs.match_close(ts, j), "label": label, "kind": t.text})
+        i += 1
+    return out
+
+
 def contains_continue(fn, lo, hi):
     """does token range (lo,hi) contain a `continue` that binds to this loop (not to a nested loop)?
     conservative: any `continue` token not inside a nested for/while/loop body."""
